@@ -26,8 +26,8 @@ ARRAY_STYLE = {"txn": "both", "gtxn": "both", "gtxns": "both", "itxn": "both", "
 STR_SAMPLE = {"b": "target_1", "bz": "target_1", "bnz": "target_1", "callsub": "target_1",
               "addr": "7777777777777777777777777777777777777777777777777777Y5HFKQ",
               "byte": "0x0102", "pushbytes": "0x0102", "method": '"foo(uint64)void"', "int": "pay", "pushint": "pay"}
-LIST_SAMPLES = {"intcblock": ["", "1", "1 2 3", "7 7"], "bytecblock": ["", "0x01", "0x01 0x02 0x03", "0x01 0x01"], "pushints": ["1", "1 2 3", "5 5"],
-                "pushbytess": ["0x01", "0x01 0x02 0x03", "0x02 0x02"], "switch": ["a", "a b c", "a a", "a b a"], "match": ["a", "a b c", "a a", "a b a"]}
+LIST_SAMPLES = {"intcblock": ["", "1", "1 2 3", "7 7"], "bytecblock": ["", "0x01", "0x01 0x02 0x03", "0x01 0x01"], "pushints": ["", "1", "1 2 3", "5 5"],
+                "pushbytess": ["0x01", "0x01 0x02 0x03", "0x02 0x02"], "switch": ["", "a", "a b c", "a a", "a b a"], "match": ["", "a", "a b c", "a a", "a b a"]}
 
 
 def _spec_ops(ctx):
@@ -379,9 +379,7 @@ def rule_prefix_and_roundtrip(ctx, rep):
         # round trip on the canonical spelling
         want = _normalise_line(r["line"])
         printed = r["printed"]
-        if op["mnemonic"] == "method":
-            rep.count("method pseudo-op printed form (quotes) not judged")
-        else:
+        if True:
             ok = rep.check(printed == want, r2, f"{_opkey(op)} print", _where(ctx, cls), printed, want,
                            why="printed form differs from the source spelling", sample={"line": r["line"], "printed": printed})
             if ok and isinstance(printed, str):
@@ -404,6 +402,25 @@ def rule_prefix_and_roundtrip(ctx, rep):
                 rep.violation(r1, f"{op['mnemonic']} vs {prev['mnemonic']}", ctx.path(PARSE), c.name, "distinct classes",
                               f"two opcodes are parsed to the same class {c.name}: one is taken for the other")
             owner.setdefault(c, op)
+    # an unknown word that merely starts with a known opcode is not that opcode: it is kept verbatim as unsupported
+    mnemonics = {op["mnemonic"] for op in _spec_ops(ctx)}
+    ext = 0
+    for mn in sorted(mnemonics):
+        for suffix in ("x", "_2", "foo"):
+            word = mn + suffix
+            if word in mnemonics or any(m.startswith(word) for m in mnemonics):
+                continue
+            for line in (word, word + " 1"):
+                try:
+                    o = w.call(pl, line)
+                    got = (o.cls.name, Interp(o.cls.mod).to_str(o)) if isinstance(o, Obj) else (None, repr(o))
+                except PyRaise as e:
+                    got = ("RAISES", e.exc)
+                ext += 1
+                ok = got[0] == "UnsupportedInstruction" and isinstance(got[1], str) and got[1].split()[-len(line.split()):] == line.split()
+                rep.check(ok, r1, f"unknown word '{line}'", ctx.path(PARSE), got, ("UnsupportedInstruction", f"... {line}"),
+                          why=f"an unknown opcode is taken for '{mn}', the known opcode it starts with", sample={"line": line} if mn in ("err", "dup") else None)
+    rep.count("unknown words that extend a known opcode", ext)
     rep.count("opcode spellings parsed", n)
     rep.require(n >= 400, f"only {n} opcode spellings generated (expected >= 400)")
 
@@ -503,7 +520,16 @@ def rule_tokens(ctx, rep):
         ("b== // c", "BEq", "b=="), ("b!=", "BNeq", "b!="), ("b l1", "B", "b l1"), ("b>", "BGreater", "b>"), ("b>=", "BGreaterE", "b>="), ("b<=", "BLessE", "b<="),
         ("b+", "BAdd", "b+"), ("bz l", "BZ", "bz l"), ("bzero", "BZero", "bzero"), ("bitlen", "BitLen", "bitlen"), ("b~", "BBitwiseInvert", "b~"),
         ("!", "Not", "!"), ("!=", "Neq", "!="), ("=", None, None),
+        # a comment may follow a token without a space (the assembler ends the token at '//')
+        ("int 1//c", "Int", "int 1"), ("txn Fee//x // y", "Txn", "txn Fee"), ("lbl://c", "Label", "lbl:"), ('byte "x"//c', "Byte", 'byte "x"'), ("retsub//", "Retsub", "retsub"),
+        ("gtxn 1 RekeyTo//c", "Gtxn", "gtxn 1 RekeyTo"), ("bnz l1//x", "BNZ", "bnz l1"),
     ]
+    if ctx.cached("base64 slashes", lambda: True):
+        # '//' is part of the base64 alphabet: inside base64 data it is data, not a comment
+        rows += [("byte b64 //8=", "Byte", "byte " + b64("//8=")), ("byte base64 //8=", "Byte", "byte " + b64("//8=")), ("byte base64(//8=)", "Byte", "byte " + b64("//8=")),
+                 ("byte b64(AA//) // c", "Byte", "byte " + b64("AA//")), ("byte b64 AA//BB8= // real comment", "Byte", "byte " + b64("AA//BB8=")),
+                 ("pushbytes b64 ab//cd== //c", "PushBytes", "pushbytes " + b64("ab//cd==")), ("byte b64 AA // c", "Byte", "byte " + b64("AA")),
+                 ("byte b32 AAAQE // c", "Byte", "byte " + b32("AAAQE"))]
     for line, cname, printed in rows:
         try:
             o = w.call(pl, line)
